@@ -283,15 +283,15 @@ public:
             COCLS_VERIF_POINT(lq_push_unlocked);
             p(std::forward<Args>(args)...);
             return future<void>::set_value();
-        } else {
+        } else if (this->_queue.size() < _limit) {
+            //there is a room in the queue, push is complete
             this->_queue.emplace(std::forward<Args>(args)...);
-            if (this->_queue.size() >= _limit) {
-                return [&](auto promise) {
-                    _blocked.push({T(std::forward<Args>(args)...),std::move(promise)});
-                };
-            } else {
-                return future<void>::set_value();
-            }
+            return future<void>::set_value();
+        } else {
+            //the queue is full, the item waits together with its promise until pop() makes a room
+            return [&](auto promise) {
+                _blocked.push({T(std::forward<Args>(args)...),std::move(promise)});
+            };
         }
     }
 
